@@ -120,11 +120,15 @@ def oracle_collapse(args):
         t.delP = np.array(c["delP"])
         t.gamma_collapse = lambda electronics=None: np.array([2.0, 2.0])
         t.hopper = lambda g: []
+        if args.get("hop"):
+            # a hop attempt and the collapse in the SAME call: the collapse must project onto the state that is active then
+            t.hopper = lambda g: [{"target": 1 - int(args["state"]), "weight": 1.0, "zeta": 0.1, "prob": 0.5}]
         e0, e1 = _elecs(c)
         t.surface_hopping(e0, e1)
         want = np.zeros((2, 2), dtype=complex)
         want[t.state, t.state] = 1.0
         problems = []
+        hopped = int(t.state != int(args["state"]))
         if np.any(t.delR) or np.any(t.delP):
             problems.append("moments not zero after the collapse")
         if not np.array_equal(t.rho, want):
@@ -138,7 +142,7 @@ def oracle_collapse(args):
             n = len(t.tracer.events.get("collapse", []))
         if n != 1:
             problems.append("%d collapse events recorded in the %s store" % (n, args["store"]))
-        return not problems, {"events": n, "problems": problems}, {"events": 1}, "; ".join(problems) or "ok"
+        return not problems, {"events": n, "hopped": hopped, "problems": problems}, {"events": 1}, "; ".join(problems) or "ok"
     finally:
         if tmp:
             shutil.rmtree(tmp, ignore_errors=True)
@@ -267,11 +271,13 @@ def run(ctx):
         if not ok:
             ctx.oracle_fail("moments-not-hermitian:%s:%s" % (which, mode), "hermitian", a, obs, req, text)
 
-    for i in range(ctx.budget(8, 200)):
-        a = {"seed": int(rng.integers(1, 10 ** 6)), "state": i % 2, "store": ["memory", "yaml"][(i // 2) % 2]}
+    for i in range(ctx.budget(24, 400)):
+        a = {"seed": int(rng.integers(1, 10 ** 6)), "state": i % 2, "store": ["memory", "yaml"][(i // 2) % 2 if i < 8 else 0],
+             "hop": i >= 8 or i % 4 == 3}
         ok, obs, req, text = oracle_collapse(a)
-        ctx.case(("collapse", a["store"], a["state"]))
+        ctx.case(("collapse", a["store"], a["state"], a["hop"], int(obs["hopped"])))
         ctx.count("collapse:" + a["store"])
+        ctx.count("collapse_in_the_step_of_an_accepted_hop", int(obs["hopped"]))
         if not ok:
             sig = "collapse-event-yaml-representer" if obs.get("exception") == "RepresenterError" else "collapse"
             ctx.oracle_fail(sig, "collapse", a, obs, req, text)
